@@ -369,7 +369,7 @@ func (c *Ctx) violate(v Violation) {
 
 func (c *Ctx) matchKnown(v Violation) string {
 	for _, k := range c.known {
-		if k.Status != "known" || k.Property != c.Prop || k.Class != v.Class {
+		if k.Status != "known" || k.Property != c.Prop || !classIn(k.Class, v.Class) {
 			continue
 		}
 		if k.re == nil || k.re.MatchString(v.Key) {
@@ -377,6 +377,16 @@ func (c *Ctx) matchKnown(v Violation) string {
 		}
 	}
 	return ""
+}
+
+// classIn: the entry's class field may list several classes separated by '|'.
+func classIn(list, class string) bool {
+	for _, c := range strings.Split(list, "|") {
+		if c == class {
+			return true
+		}
+	}
+	return false
 }
 
 func (c *Ctx) loadKnown() {
